@@ -20,7 +20,7 @@ func init() {
 		Run: runConvertWrapper,
 	})
 	register(&Rule{
-		ID: "C08.partial-constructors", Prop: "C08", Floor: 6, Also: []string{"C06"},
+		ID: "C08.partial-constructors", Prop: "C08", Floor: 4, Also: []string{"C06"},
 		Doc: "every ListVal/SetVal/MapVal call in package convert is dominated by an emptiness exit and a CanListVal/CanSetVal/CanMapVal exit on the same operand",
 		Run: runConvertPartialCtors,
 	})
